@@ -21,7 +21,7 @@ for l in open("/verif/properties.jsonl"):
         props_of.setdefault(f, []).append(j["id"])
 EXTRA = {"penguin/src/client/handle_remote/common.rs": ["C01", "C19"], "penguin/src/client/handle_remote/http.rs": ["C01"],
          "penguin/src/client/handle_remote/tcp.rs": ["C01"], "penguin/src/client/handle_remote/udp.rs": ["C01"], "penguin/src/server/websocket.rs": ["C01", "C11"]}
-NAMES = r"(target_port|dest_port|rport|lport|port|peer_rwnd|rwnd|flow_id|client_id|id|psh_recvd_since|acknowledged|new|len|written|at|cnt|n)"
+NAMES = r"(rwnd_threshold|max_flow_id_retries|retries_left|processed|amt|read_amt|total_len|host_len|target_port|dest_port|rport|lport|port|peer_rwnd|rwnd|flow_id|client_id|id|psh_recvd_since|acknowledged|new|len|written|at|cnt|n)"
 SKIP = re.compile(r"^\s*(//|#\[|///|debug_assert|assert|trace!|debug!|info!|warn!|error!|use |pub use |mod |\*|fn |pub fn |pub\(|pub |async fn |let Some|let Ok)")
 USE = re.compile(r"(?<![\w.&:])" + NAMES + r"(?=\s*[,)\]};])")
 
@@ -48,7 +48,7 @@ def main():
                 continue
             for m in USE.finditer(ln):
                 nm = m.group(1)
-                if per_name.get(nm, 0) >= 4:
+                if per_name.get(nm, 0) >= int(os.environ.get("AUTOMUT3_CAP", "4")):
                     continue
                 per_name[nm] = per_name.get(nm, 0) + 1
                 new = ln[:m.start()] + ("%s: (%s | 1)" % (nm, nm) if re.search(r"[{,]\s*$", ln[:m.start()]) and ln[m.end():m.end() + 1] in (",", "}") and "(" not in ln[:m.start()].split("{")[-1] else "(%s | 1)" % nm) + ln[m.end():]
